@@ -114,6 +114,7 @@ func workerMain(args []string) int {
 	}
 	w := &Worker{Prop: f.prop, Tier: f.tier, Seed: f.seed, W: f.w, N: f.n, St: newStats(f.prop), hashes: map[uint64]struct{}{},
 		seenClass: map[string]*Violation{}, Deadline: time.Now().Add(tp.Budget), MaxCases: tp.Cases, inv: loadInventory(f.inv), K: tp.K}
+	loadVarIDs(w.inv)
 	if vl, err := os.Create(filepath.Join(f.scratch, fmt.Sprintf("viol.%s.%d.jsonl", f.prop, f.w))); err == nil {
 		w.violLog = vl
 		defer vl.Close()
@@ -461,7 +462,7 @@ func replayMain(args []string) int {
 	inv := fs.String("inv", "", "inventory")
 	quiet := fs.Bool("quiet", false, "no VIOLATION line (used by the driver's own confirmation)")
 	fs.Parse(args)
-	_ = inv
+	loadVarIDs(loadInventory(*inv))
 	b, err := os.ReadFile(*file)
 	if err != nil {
 		fmt.Println("ERROR:", err)
